@@ -34,13 +34,17 @@ func (d BinomialDist) PMF(k float64) float64 {
 // CDF is the probability of getting k or fewer successes in d.N
 // independent Bernoulli trials with probability d.P.
 func (d BinomialDist) CDF(k float64) float64 {
+	// Compare before converting to int: the conversion of a float
+	// beyond the range of int is implementation-specific (on amd64
+	// it yields the most negative int, which made CDF(1e19) and
+	// CDF(+Inf) return 0).
 	k = math.Floor(k)
-	ki := int(k)
-	if ki < 0 {
+	if !(k >= 0) {
 		return 0
-	} else if ki >= d.N {
+	} else if k >= float64(d.N) {
 		return 1
 	}
+	ki := int(k)
 
 	return mathx.BetaInc(1-d.P, float64(d.N-ki), k+1)
 }
